@@ -120,10 +120,21 @@ def judge_run(cls, sysname, t0, f0, S, stop, op, solver, res, traj=None, it0=0, 
     before = ([d.copy() for d in fcall.data], fcall.time, fcall.it)
     # the dictionary object handed to the code may be one the caller reuses for many calls (stop_obj); the oracle works on a pristine copy
     given = stop_obj if stop_obj is not None else (dict(stop) if stop is not None else None)
-    ts_given = np.array(S, float) if as_array else list(S)
+    # ways of calling: the same request written as different users would write it (as_array: True/False or a style number 0..5)
+    style = {False: 0, True: 1}.get(as_array, as_array)
+    ts_given = np.array(S, float) if style == 1 else tuple(S) if style == 2 else list(S)
     try:
         with np.errstate(all="ignore"), core.time_limit(HORIZON):
-            out = getattr(solver, op)(fcall, cfl, ts_given, stop=given)
+            if not S and style in (0, 3):
+                out = getattr(solver, op)(fcall, cfl, stop=given)                       # no save times: the argument is left to its default
+            elif style == 3:
+                out = getattr(solver, op)(stop=given, tsave=ts_given, condition=cfl, f=fcall)
+            elif style == 4:
+                out = getattr(solver, op)(fcall, np.float64(cfl), ts_given, given)
+            elif style == 5:
+                out = getattr(solver, op)(fcall, cfl, ts_given, stop=given, flush=None, monitors={}, directives={})
+            else:
+                out = getattr(solver, op)(fcall, cfl, ts_given, stop=given)
     except core.CallTimeout as e:
         return [("non-termination", "%s did not return within its horizon (a problem of at most 5 iterations): the stop criteria were never met" % op)], None
     except Exception as e:      # the driver must not raise on a valid request
@@ -274,7 +285,8 @@ def shard_solve(arg):
             if inside:
                 res.nontrivial += 1
             solver = cls(m, disc)
-            bad, snaps = judge_run(cls, sysname, t0, f0, S, stop, "solve", solver, res, traj, cfl=cfl, as_array=as_array, stop_obj=shared[si])
+            style = as_array if as_array else (res.evals % 6)
+            bad, snaps = judge_run(cls, sysname, t0, f0, S, stop, "solve", solver, res, traj, cfl=cfl, as_array=style, stop_obj=shared[si])
             if shared[si] != stop:
                 shared[si] = dict(stop) if stop is not None else None       # reported once; later histories start from a clean dictionary again
             key = (iname, sysname, t0, tuple(combo), si)
@@ -283,7 +295,7 @@ def shard_solve(arg):
                 res.census["outcome/%d-snapshots" % len(snaps)] += 1
             for rule, what in bad:
                 res.violation("C07/%s/%s" % (iname, rule), "%s on %s t0=%r save=%r stop=%r: %s" % (iname, sysname, t0, S, stop, what),
-                              {"kind": "solve", "integrator": iname, "system": sysname, "t0": t0, "ticks": list(combo), "stop_index": si, "cfl": cfl, "as_array": as_array})
+                              {"kind": "solve", "integrator": iname, "system": sysname, "t0": t0, "ticks": list(combo), "stop_index": si, "cfl": cfl, "as_array": style})
             if res.nviol["C07/%s/non-termination" % iname] >= MAX_TIMEOUTS:
                 res.census["shard-abandoned-after-non-terminating-calls"] += 1
                 return res
